@@ -17,6 +17,9 @@ CONSTANTS
   MaxFaults = 0
   DeferUnlock = TRUE
   StickyError = TRUE
+  LiveKind = 0
+  MaxTicks = 0
+  ResolveOnDerive = FALSE
   MaxH = 5
   MaxLogs = 1
   MaxGroups = 1
